@@ -568,6 +568,46 @@ def angle_grid_obligations(model, rep, g, clause):
         if not (isinstance(lp, ast.For) and isinstance(lp.target, ast.Tuple) and len(lp.target.elts) == 2 and all(isinstance(e, ast.Name) for e in lp.target.elts)):
             continue
         mx, st = (e.id for e in lp.target.elts)
+        # np.arange(a, b, s): the grid a + k*s contains 0 (the identity) and consists of multiples of step only if s == step and a is an integer multiple of it
+        for c in [c for c in ast.walk(lp) if isinstance(c, ast.Call) and (dotted(c.func) or "").rsplit(".", 1)[-1] == "arange" and len(c.args) == 3]:
+            n += 1
+            rep.instance("A.grid", g.loc(c))
+            dom = AffineDomain(model, positive_syms={st}, nonneg_syms={mx})
+            it = Interp(model, dom, depth=0)
+            env = {mx: dom.sym(mx), st: dom.sym(st)}
+            for s_ in ast.walk(lp):
+                if isinstance(s_, ast.Assign) and len(s_.targets) == 1 and isinstance(s_.targets[0], ast.Name) and s_.lineno < c.lineno:
+                    try:
+                        env[s_.targets[0].id] = it.eval(s_.value, env, g)
+                    except Exception:
+                        pass
+            try:
+                a, b, sp = (it.eval(x, env, g) for x in c.args)
+            except Exception:
+                a = b = sp = None
+            if not all(isinstance(x, _A) for x in (a, b, sp)):
+                rep.ob("A", g.anchor, "the angle grid of a (max, step) range is evaluated symbolically", None, f"`{norm_src(c)}`", node=c, fn=g, clause=clause,
+                       stmt="angle grid")
+                continue
+            ok_s = dom.proves_equal(sp, dom.sym(st))
+            ratio = dom.div(a, dom.sym(st))
+            ok_a = ratio is not None and isinstance(ratio, _A) and dom.is_integer(ratio)
+            det = ""
+            if not (ok_s and ok_a):
+                w = None
+                for mv, sv in ((Fraction(20), Fraction(15)), (Fraction(5, 2), Fraction(1)), (Fraction(7), Fraction(2))):
+                    asg = {mx: mv, st: sv}
+                    av, spv = dom.eval_form(a, asg), dom.eval_form(sp, asg)
+                    if av is not None and spv is not None and (spv != sv or (av / sv).denominator != 1):
+                        w = (float(mv), float(sv), float(av))
+                        break
+                det = f"`{norm_src(c)}`" + (f": for (max, step) = ({w[0]}, {w[1]}) the grid starts at {w[2]} - it misses 0 (the identity) and the multiples of step"
+                                            if w else ": start is not provably an integer multiple of step")
+                verdict = False if w else None
+            else:
+                verdict = True
+            rep.ob("A", g.anchor, "(max, step) range: the candidate angles are the multiples of step within +-max - the arange grid starts at an integer multiple "
+                   "of step and advances by step", verdict, det, node=c, fn=g, clause=clause, stmt="angle grid arange")
         lins = [c for c in ast.walk(lp) if isinstance(c, ast.Call) and (dotted(c.func) or "").rsplit(".", 1)[-1] == "linspace" and len(c.args) >= 3]
         for c in lins:
             n += 1
